@@ -223,10 +223,10 @@ func checkC17(c *Ctx, r *Report) {
 				apps = append(apps, in)
 			}
 		})
-		r4.guard(f, "append to result", apps, "len(v.ObservedBy) >= minObservers", edgeCmp(func(b *ssa.BinOp) bool {
-			call, _ := b.X.(*ssa.Call)
-			return b.Op == token.GEQ && call != nil && calleeKey(call) == "builtin.len" && derivesFrom(call.Call.Args[0], func(x ssa.Value) bool { f, _ := loadOfField(x); return f != nil && f.Name() == "ObservedBy" }) && isParamVar(c, b.Y, "minObservers")
-		}, true), nil)
+		r4.guard(f, "append to result", apps, "len(v.ObservedBy) >= minObservers", edgeExcl(func(v ssa.Value) bool {
+			call, _ := v.(*ssa.Call)
+			return call != nil && calleeKey(call) == "builtin.len" && derivesFrom(call.Call.Args[0], func(x ssa.Value) bool { f, _ := loadOfField(x); return f != nil && f.Name() == "ObservedBy" })
+		}, func(v ssa.Value) bool { return isParamVar(c, v, "minObservers") }, ordLT), nil)
 		capOK := constIntObj(c, oaP, "maxExternalThinWaistAddrsPerLocalAddr") == 3
 		for _, ret := range returnsOf(f) {
 			sl, ok := retVal(ret, 0).(*ssa.Slice)
@@ -268,10 +268,7 @@ func checkC17(c *Ctx, r *Report) {
 			// the raw parameter reaches the call only when it is > 0
 			if phi, isPhi := call.Common().Args[2].(*ssa.Phi); isPhi {
 				es := phiEdgesWhere(phi, func(v ssa.Value) bool { return isParamVar(c, v, "minObservers") })
-				q := &Cut{Fn: f, TargetEdge: edgeSet(es), EdgeCut: edgeCmp(func(b *ssa.BinOp) bool {
-					n, isC := constInt(b.Y)
-					return isC && n == 0 && b.Op == token.LEQ && isParamVar(c, b.X, "minObservers")
-				}, false)}
+				q := &Cut{Fn: f, TargetEdge: edgeSet(es), EdgeCut: edgeIntBound(func(v ssa.Value) bool { return isParamVar(c, v, "minObservers") }, 1, intInf, false)}
 				w, n := q.Run(c)
 				r4.Check(w == "", "Addrs: minObservers used only when > 0", f.Pos(), n+1, "", "a non-positive threshold would report unobserved addresses", w)
 			} else if !isThresh(call.Common().Args[2]) {
